@@ -39,6 +39,24 @@ size_t verif_strlen_ghost(const char* s) { return s == h_key ? h_klen : h_elen; 
 
 unsigned short nondet_ushort(void);
 
+#ifdef LEMMA_AXIOMS
+/* unit L.cmpf.axioms: A5 follows from A1 by induction over the position -- base cases and induction steps
+   (forward for "count <= position", backward for "count <= total"); the induction principle itself is the
+   only step that is not machine-checked */
+void harness(void) {
+    size_t p = nondet_size(), len = nondet_size();
+    __CPROVER_assume(p < len && len <= CMP_KOBJ);
+    char b = nondet_char();                                   /* the byte at position p */
+    unsigned short c_p = nondet_ushort(), c_p1 = nondet_ushort(), total = nondet_ushort();
+    __CPROVER_assume(c_p1 == c_p + (BASE(b) ? 1 : 0));         /* A1 at p */
+    CANARY();
+    unsigned short c_0 = 0;
+    __CPROVER_assert(c_0 <= 0, "A5 base: count at position 0 is 0 <= 0");
+    __CPROVER_assert(!(c_p <= p) || c_p1 <= p + 1, "A5 step (forward): count[p] <= p implies count[p+1] <= p+1");
+    __CPROVER_assert(total <= total, "A5 base: count at the terminator <= total");
+    __CPROVER_assert(!(c_p1 <= total) || c_p <= total, "A5 step (backward): count[p+1] <= total implies count[p] <= total");
+}
+#else
 void harness(void) {
 #ifdef FIXED_OBJ
     size_t nk = CMP_KOBJ, ne = CMP_EOBJ;
@@ -105,3 +123,4 @@ void harness(void) {
     _Bool accept = equal || (IS_PREFIX_RULE && is_prefix && NKs >= SPEC_PREFIX_LEN);
     __CPROVER_assert((r == 0) == accept, "cmp: equal exactly by the acceptance rule (full word, or prefix of >= 4 base letters; accents ignored where the language has them)");
 }
+#endif
